@@ -781,53 +781,72 @@ func ruleCtxPrecheck(c *Ctx, rule string, vf *vmFacts) {
 // ---- C11/own-storage --------------------------------------------------------------------------
 // The converted instruction stream stored into a function must be storage the
 // conversion of THAT function built, not a buffer handed in from outside.
-func ruleOwnStorage(c *Ctx, rule string, conv *ssa.Function) {
+func ruleOwnStorage(c *Ctx, rule string, conv *ssa.Function, others ...*ssa.Function) {
 	l := c.L
 	_, fInst := l.structField(modPath, "CompiledFunction", "Instructions")
 	n := 0
-	eachInstr(conv, func(ins ssa.Instruction) {
-		st, ok := ins.(*ssa.Store)
-		if !ok {
-			return
+	fns := append([]*ssa.Function{conv}, others...)
+	seenFn := map[*ssa.Function]bool{}
+	for _, fn := range fns {
+		if fn == nil || seenFn[fn] {
+			continue
 		}
-		if _, ok := isFieldAddrOf(st.Addr, modPath, "CompiledFunction", fInst); !ok {
-			return
-		}
-		n++
-		// walk the append / slice chain to its roots
-		foreign := false
-		seen := map[ssa.Value]bool{}
-		var walk func(v ssa.Value, d int)
-		walk = func(v ssa.Value, d int) {
-			if v == nil || seen[v] || d > 12 {
+		seenFn[fn] = true
+		eachInstr(fn, func(ins ssa.Instruction) {
+			st, ok := ins.(*ssa.Store)
+			if !ok {
 				return
 			}
-			seen[v] = true
-			switch x := v.(type) {
-			case *ssa.Parameter:
-				foreign = true
-			case *ssa.ChangeType:
-				walk(x.X, d+1)
-			case *ssa.Slice:
-				walk(x.X, d+1)
-			case *ssa.Phi:
-				for _, e := range x.Edges {
-					walk(e, d+1)
+			if _, ok := isFieldAddrOf(st.Addr, modPath, "CompiledFunction", fInst); !ok {
+				return
+			}
+			n++
+			// walk the append / slice chain to its roots: every root must be
+			// storage made by this function (nil, make, a local array); anything
+			// else (a parameter, a field, a map entry, a call result) is shared
+			foreign := false
+			seen := map[ssa.Value]bool{}
+			var walk func(v ssa.Value, d int)
+			walk = func(v ssa.Value, d int) {
+				if v == nil || seen[v] {
+					return
 				}
-			case *ssa.Call:
-				if b, ok := x.Call.Value.(*ssa.Builtin); ok && b.Name() == "append" {
-					walk(x.Call.Args[0], d+1)
+				if d > 12 {
+					foreign = true
+					return
 				}
-			case *ssa.UnOp:
-				// loaded from memory that is not a local: shared
-				if _, isLocal := x.X.(*ssa.Alloc); !isLocal {
+				seen[v] = true
+				switch x := v.(type) {
+				case *ssa.Const, *ssa.MakeSlice, *ssa.Alloc:
+				case *ssa.ChangeType:
+					walk(x.X, d+1)
+				case *ssa.Convert:
+					// []byte(string) allocates
+				case *ssa.Slice:
+					walk(x.X, d+1)
+				case *ssa.Phi:
+					for _, e := range x.Edges {
+						walk(e, d+1)
+					}
+				case *ssa.Call:
+					if b, ok := x.Call.Value.(*ssa.Builtin); ok && b.Name() == "append" {
+						walk(x.Call.Args[0], d+1)
+					} else {
+						foreign = true
+					}
+				case *ssa.UnOp:
+					// loaded from memory that is not a local: shared
+					if _, isLocal := x.X.(*ssa.Alloc); !isLocal {
+						foreign = true
+					}
+				default:
 					foreign = true
 				}
 			}
-		}
-		walk(st.Val, 0)
-		c.Check(rule, fnName(conv)+" | cf.Instructions = ...", l.Pos(st.Pos()), !foreign, "the new stream is built from storage local to this conversion", "the converted instructions alias a buffer that comes from outside this conversion (a shared scratch buffer): converting the next function overwrites the code of this one")
-	})
+			walk(st.Val, 0)
+			c.Check(rule, fnName(fn)+" | cf.Instructions = ...", l.Pos(st.Pos()), !foreign, "the new stream is built from storage local to this conversion", "the converted instructions alias storage that comes from outside this conversion (a shared scratch buffer, a cache entry, another function's stream): two functions share one stream, or converting the next function overwrites the code of this one, and the source map of the second is not re-keyed")
+		})
+	}
 	if n == 0 {
 		c.Und(rule, fnName(conv), l.Pos(conv.Pos()), "the converter does not store new instructions")
 	}
